@@ -145,9 +145,9 @@ pub fn drive(seed: u64, runs: usize, steps: usize, out: &str) {
                 .stack_size(128 << 20)
                 .spawn(move || {
                     let mut rng = ChaCha8Rng::seed_from_u64(seed.wrapping_mul(5_000_011).wrapping_add(run as u64));
-                    let g = |rng: &mut ChaCha8Rng| rng.gen_range(0..=6);
+                    let g = |rng: &mut ChaCha8Rng| rng.gen_range(5..=14);
                     let init = json!({"owner": "owner0", "fkMeta": "good",
-                        "trusted": {"ethereum": true, "avalanche": false, "polygon": rng.gen_bool(0.5)},
+                        "trusted": {"ethereum": true, "avalanche": false, "polygon": rng.gen_bool(0.7)},
                         "gas": {"alice": g(&mut rng), "bob": g(&mut rng), "carol": g(&mut rng), "dave": 0},
                         "bal": {"sac": {"alice": 4, "bob": 2, "carol": 0}, "fk": {"alice": 3, "bob": 0}}});
                     let mut b = ItsBinder::new(&inst, &init);
